@@ -49,10 +49,17 @@ impl InlineParser {
         }
 
         if state.level < state.md.max_nesting {
+            #[cfg(mdit_verif)]
+            let mut verif_rule_idx = 0usize;
             for rule in self.ruler.iter() {
                 state.level += 1;
                 ok = rule(state, true);
                 state.level -= 1;
+                #[cfg(mdit_verif)]
+                {
+                    if let Some(len) = ok { crate::verif_hooks::claim(state.src.as_ptr() as usize, pos, verif_rule_idx, len); }
+                    verif_rule_idx += 1;
+                }
                 if ok.is_some() {
                     break;
                 }
@@ -113,9 +120,12 @@ impl InlineParser {
                         state.pos_max = saved.1;
                         Some((verdict, crate::verif_hooks::tree_size(&state.node) == size, kept, saved.0))
                     } else { None };
+                    #[cfg(mdit_verif)]
+                    let verif_at = state.pos;
                     ok = rule(state, false);
                     #[cfg(mdit_verif)]
                     {
+                        crate::verif_hooks::real_result(state.src.as_ptr() as usize, verif_at, verif_rule_idx, ok.map(|len| state.pos + len - verif_at));
                         if let Some((silent, kept_tree, kept_pos, at)) = verif_probe {
                             // a real-mode rule may leave `pos` inside its construct (links do): the extent is
                             // what the tokenizer will advance to, measured from the probe position
